@@ -34,7 +34,13 @@ class G:
         self.tiny = tiny
         # lengths are drawn from a dense low band so that keys collide, cover and branch
         self.band = 3 if tiny else (maxlen or rng.choice([4, 5, 6, 8]))
+        # deep mode (20% of the non-tiny scripts): prefix lengths over the whole range 0..w and long
+        # chains of nested prefixes (keys are mostly extensions of stored keys by 1..w-l bits)
+        self.deep = (not tiny) and rng.random() < 0.2
         self.maps = {'A': {}, 'B': {}, 'T': {}}
+        # keys whose node probably still exists without a value (removed with remove_keep_tree /
+        # OccupiedEntry::remove / a view's remove): favourite targets of later operations
+        self.ghosts = {'A': [], 'B': [], 'T': []}
         self.lines = []
         self.nval = 1
 
@@ -64,6 +70,22 @@ class G:
         return self.r.randint(0, self.band)
 
     def rand_key(self):
+        if self.deep:
+            ks = [k for m in self.maps.values() for k in m]
+            if ks and self.r.random() < 0.65:
+                a, l = self.r.choice(ks)
+                if l < self.w:
+                    ext = self.r.choice([1, 1, 2, 3, self.r.randint(1, self.w - l)])
+                    ext = min(ext, self.w - l)
+                    m = self.r.random()
+                    e = 0 if m < 0.3 else ((1 << ext) - 1 if m < 0.5 else self.r.getrandbits(ext))
+                    return self.key(a | (e << (self.w - l - ext)), l + ext)
+            l = self.r.randint(0, self.w)
+            hi = min(l, 3)
+            a = (self.r.getrandbits(hi) << (self.w - hi)) if hi else 0
+            if l > hi:
+                a |= self.r.getrandbits(l - hi) << (self.w - l)
+            return self.key(a, l)
         l = self.rand_len()
         if l > self.band and l < self.w - 1:
             l = self.band
@@ -92,6 +114,9 @@ class G:
         """a key biased towards stored keys / branching points / edge positions of map X"""
         ks = self.stored(X)
         r = self.r.random()
+        gh = self.ghosts.get(X)
+        if gh and self.r.random() < 0.12:
+            return self.r.choice(gh)
         if ks and r < p_stored:
             return self.r.choice(ks)
         if ks and r < p_stored + p_edge:
@@ -167,6 +192,8 @@ class G:
     def op_remove(self, X, kind='rem'):
         k = self.pick(X, 0.7, 0.15)
         self.emit('%s %s %s' % (kind, X, self.p(k)))
+        if kind == 'remk' and k in self.maps[X]:
+            self.ghosts[X].append(k)
         self.maps[X].pop(k, None)
 
     def op_remc(self, X):
@@ -195,6 +222,7 @@ class G:
     def op_clear(self, X):
         self.emit('clear %s' % X)
         self.maps[X].clear()
+        self.ghosts[X] = []
 
     def op_collect(self, X):
         n = len(self.maps[X]) + 2
@@ -229,6 +257,8 @@ class G:
                 ops.append(c)
                 if c == 'occ.remove':
                     removed = True
+                    if k in self.maps[X]:
+                        self.ghosts[X].append(k)
                     self.maps[X].pop(k, None)
                 if c.startswith('occ.insert'):
                     break
@@ -910,6 +940,55 @@ def prof_alg(g):
         g.emit('alg %x/%d %x/%d %d' % (a, la, b, lb, i))
 
 
+def exh_space(klen, nops):
+    """the operation alphabet of the bounded-exhaustive profiles: every mutator of the structural
+    alphabet applied to every key of length <= klen of the (u8,u8) universe"""
+    keys = [(0, 0)]
+    for l in range(1, klen + 1):
+        for a in range(1 << l):
+            keys.append((a << (8 - l), l))
+    ops = []
+    for (a, l) in keys:
+        p = '%x/%d' % (a, l)
+        ops.append('ins A %s %%d' % p)
+        ops.append('rem A %s' % p)
+        ops.append('remk A %s' % p)
+        ops.append('remc A %s' % p)
+    ops.append('retain A even -')
+    ops.append('retain A len<=1 -')
+    return ops, keys
+
+
+def exh_script(idx, klen, nops):
+    """script number idx of the enumeration of ALL op sequences of length nops (mixed radix)"""
+    ops, keys = exh_space(klen, nops)
+    n = len(ops)
+    seq = []
+    x = idx
+    for _ in range(nops):
+        seq.append(ops[x % n])
+        x //= n
+    lines = []
+    v = 1
+    for o in seq:
+        if '%d' in o:
+            o = o % v
+            v += 1
+        lines.append(o)
+        lines.append('obs A')
+        lines.append('shape A')
+        lines.append('arena A')
+    for (a, l) in keys:
+        lines.append('q A %x/%d' % (a, l))
+    return lines
+
+
+def exh_size(klen, nops):
+    return len(exh_space(klen, nops)[0]) ** nops
+
+
+EXH = {'exh2': (3, 2), 'exh3': (2, 3), 'exh4': (1, 4)}   # name -> (max key length, sequence length)
+
 PROFILES = {
     'hist': prof_c01, 'queries': prof_queries, 'iters': prof_iters, 'count': prof_count,
     'count_nov': prof_count_nov, 'setops': prof_setops, 'setops_mut': prof_setops_mut,
@@ -920,6 +999,13 @@ PROFILES = {
 
 
 def gen_script(profile, seed, idx, types=None, tiny_share=0.35):
+    if profile in EXH:
+        klen, nops = EXH[profile]
+        total = exh_size(klen, nops)
+        # enumeration order is a fixed permutation (odd multiplier) so that a prefix of the run is spread
+        # over the space; counts >= exh_size enumerate the whole space
+        j = (idx * 1000003 + seed) % total if total > 1 else 0
+        return '%s-%d-%d' % (profile, seed, idx), 'u8', exh_script(j, klen, nops)
     rng = random.Random('%s/%d/%d' % (profile, seed, idx))
     if profile == 'alg':
         ty = ALL_TYPES[idx % len(ALL_TYPES)]
